@@ -819,12 +819,22 @@ def nested_lib_doc(r, name, python):
     library / namespace / class."""
     cnt = [0]
 
+    dtors = set()
+
     def fn(inclass):
         cnt[0] += 1
+        if inclass and r.random() < 0.35:
+            # constructor / destructor of the enclosing class (inclass = its name), possibly inside blocks
+            if inclass not in dtors and r.random() < 0.4:
+                dtors.add(inclass)
+                return ("fn", "d%d" % cnt[0], {}, {}, "~%s() +name(destroy%d)" % (inclass, cnt[0]))
+            return ("fn", "c%d" % cnt[0], {}, {}, r.choice(["%s() +name(create%d)", "%s(int a, double b) +name(create%d)"]) % (inclass, cnt[0]))
         return ("fn", "f%d" % cnt[0], {}, {}, r.choice(POOL_FREE[:9] if inclass else POOL_FREE))
 
     def scope(kind, depth, inclass):
         cnt[0] += 1
+        if kind == "cls":
+            inclass = "K%d" % cnt[0]
         kids = []
         for _ in range(r.randrange(1, 4)):
             c = r.random()
@@ -838,7 +848,8 @@ def nested_lib_doc(r, name, python):
                 kids.append(fn(inclass))
         if not any(k[0] == "fn" for k in kids):
             kids.append(fn(inclass))
-        return (kind, {"ns": "N%d", "cls": "K%d", "block": "B%d"}[kind] % cnt[0], {}, {}, kids)
+        me = cnt[0] if kind != "cls" else int(inclass[1:])
+        return (kind, {"ns": "N%d", "cls": "K%d", "block": "B%d"}[kind] % me, {}, {}, kids)
 
     items = [scope("block", 1, False), scope("ns", 1, False), scope("cls", 1, True), fn(False)]
     r.shuffle(items)
@@ -1049,10 +1060,14 @@ ARG_HOSTS = [
     ("free", "void {n}(double **arg{A}, int *n +intent(out))", "arg"),
     ("method", "void {n}(int *arg{A}, int n)", "arg"),
     ("ctor", "Thing(int arg{A})", "arg"),
+    # attributes next to other per-declaration fields that copy the parameters (fortran_generic, default arguments)
+    ("free", "void {n}(double *arg, int n{A})", "n", {"fortran_generic": [{"decl": "(float *arg)"}, {"decl": "(double *arg)"}]}),
+    ("free", "void {n}(double *arg{A}, int n)", "arg", {"fortran_generic": [{"decl": "(float *arg)"}, {"decl": "(double *arg)"}]}),
+    ("free", "void {n}(int *arg{A}, int n = 3)", "arg"),
 ]
 
 
-def attr_pair_docs(where, host, argname, attr, form, idx, python):
+def attr_pair_docs(where, host, argname, attr, form, idx, python, common_extra=None):
     if form[0] == "flag":
         text, val = " +%s" % attr, True
     elif form[0] == "paren":
@@ -1066,6 +1081,7 @@ def attr_pair_docs(where, host, argname, attr, form, idx, python):
     keep = ("fn", "g1", {}, {}, "int {n}(int q)")
 
     def mk(decl, ex):
+        ex = dict(ex or {}, **(common_extra or {}))
         f = ("fn", fname, {}, {}, decl) + ((ex,) if ex else ())
         if where == "free":
             tree = [keep, f]
@@ -1094,14 +1110,17 @@ def oracle_attrs(ctx, orc, r, thorough):
                 # plus a seeded sample of the other combinations
                 seen, must, rest = set(), [], []
                 for h, f in combos:
-                    if h[0] not in seen:
-                        seen.add(h[0]); must.append((h, f))
+                    hk = (h[0], len(h) > 3)
+                    if hk not in seen:
+                        seen.add(hk); must.append((h, f))
                     else:
                         rest.append((h, f))
                 combos = must + r.sample(rest, min(2, len(rest)))
-            for (where, host, argname), form in combos:
+            for hostrec, form in combos:
+                where, host, argname = hostrec[:3]
                 idx += 1
-                a, b, inline = attr_pair_docs(where, host, argname, attr, form, idx, python=(idx % 3 == 0))
+                a, b, inline = attr_pair_docs(where, host, argname, attr, form, idx, python=(idx % 3 == 0),
+                                              common_extra=hostrec[3] if len(hostrec) > 3 else None)
                 before = orc.errors["attrs"]
                 orc.compare_docs("attrs", "attrs:%s:%s:%s:%s" % (kind, attr, where, form[0]),
                                  "inline attribute vs %s entry: %s" % ("attrs" if argname else "fattrs", inline),
@@ -1404,6 +1423,8 @@ def oracle_create_wrapper_sequences(ctx, orc, scr, r, thorough):
         bad = False
         for ci, n in enumerate(seq):
             tree = shroudrun.read_tree(os.path.join(d, "o%d" % ci))
+            # the generated setup.py quotes the output directory name: same name on both sides
+            tree = {k: v.replace(("'o%d/" % ci).encode(), b"'out/") for k, v in tree.items()}
             ctree, ccf, cff = cli[n]
             diff = first_diff(tree, ctree, skip_json=False)
             what = None
@@ -1555,6 +1576,7 @@ def _run(ctx, thorough, ok, drv, scr):
     # ---------------- D2 trees
     ntree = 400 if thorough else 80
     tree_fn_orders = 0
+    tie_stats = collections.Counter()
     for _ in range(ntree):
         items = gen_tree(r)
         topo = {"zq%d" % k: r.randrange(1, 90) for k in r.sample(range(1, 5), r.randrange(0, 3))}
@@ -1564,6 +1586,7 @@ def _run(ctx, thorough, ok, drv, scr):
         except Exception as e:  # generated description rejected by the parser: not a scope matter
             ctx.note("tree_rejected", "%s: %s" % (type(e).__name__, str(e)[:120]))
             continue
+        tree_stats(items, stats=tie_stats)
         for which, real, top in (("o", ro, topo), ("f", rf, topf)):
             reqs.append("tr 1,2,3,4 %s %s" % (_encp(_zq(top)), " ".join(tree_to_model(items, which))))
             impl.append(real)
@@ -1634,6 +1657,7 @@ def _run(ctx, thorough, ok, drv, scr):
         ctx.tie_broken("scope-correspondence", "driver not built")
     dist = collections.Counter(tags)
     ctx.note("correspondence_cases", dict(dist))
+    ctx.note("tie_tree_distribution", dict(tie_stats))
     ctx.note("disagreements", len(disagreements))
     ctx.note("scope_program_results", {"recursion": sum(1 for a, t in zip(impl, tags) if t == "sc" and " R" in a),
                                        "attr_errors": sum(1 for a, t in zip(impl, tags) if t == "at" and a == "error"),
